@@ -307,6 +307,25 @@ def check_true_color(prog, rep):
             whya = 'filled with %s, then %s where %s' % (a3[0][1], a3[1][1], tshow(a3[1][0], 80))
         rep.add('M5-alpha', f, entry, 'alpha', f.node.lineno, oka,
                 'alpha must be 0 exactly where red is NaN or <= nodata and 255 elsewhere; ' + whya)
+        # the red band reaches the alpha comparison as given: a narrowing cast before it moves cells across `<= nodata`
+        wp = WT(prog)
+        wp.run(pub)
+        rec = [x for x in wp.calls if x.node is paths[0].call]
+        okin, whyin = None, 'dispatch call not found in the wrapper terms'
+        if rec and rec[0].args:
+            red = rec[0].args[0]
+            rpub = pub.params[0]
+            if red in (('param', rpub), ('data', ('param', rpub))):
+                okin, whyin = True, ''
+            elif red[0] == 'cast' and tkey(strip(red)) in (tkey(('param', rpub)), tkey(('data', ('param', rpub)))):
+                dt = red[2][1] if red[2][0] in ('const', 'global') else None
+                wide = dt in ('f8', 'float64', 'np.float64', 'float', 'numpy.float64', '<f8')
+                okin, whyin = (True if wide else False), 'red band cast to %s before the comparison with nodata' % (dt,)
+            else:
+                whyin = 'red band argument %s' % tshow(red, 80)
+        rep.add('M5-alpha', pub, entry, 'red band handed to the alpha test unrounded', paths[0].call.lineno, okin,
+                'alpha compares the red band with nodata: the band must reach that comparison as given (or widened), a cast to a '
+                'narrower float first moves cells that are within rounding of nodata to the other side; ' + whyin)
         rep.add('M5-channels', f, entry, 'channel order %s + alpha' % order, f.node.lineno,
                 order == [rp, gp, bp] and 3 in chan and set(chan) == {0, 1, 2, 3},
                 'RGBA channels must be (r, g, b, alpha) in this order, each colour the normalised band')
